@@ -49,7 +49,7 @@ Canon(h) ==                                               \* h[4] # 0
   IN << h[1] \div s, h[2] \div s, h[3] \div s, h[4] \div s >>
 IsPosition(h) == Len(h) = 4 /\ h[4] >= 1 /\ Canon(h) = h
 InBox(h, k) == /\ h[4] \in 1..DB
-               /\ \A c \in 1..3 : AbsI(h[c]) <= k * NB
+               /\ \A c \in 1..3 : AbsI(h[c]) \div k <= NB          \* (k * NB may not fit 32 bits for k = 10^4)
 ScaleH(h, k) == Canon(<< k*h[1], k*h[2], k*h[3], h[4] >>)    \* the point k * h, k integer >= 1
 
 (* ---- planes ------------------------------------------------------------- *)
